@@ -214,7 +214,7 @@ theorem siftDown_map (lt : κ → κ → Bool) (lt' : κ' → κ' → Bool) (f :
   | case4 a i h2 hlr hlt =>
     rw [siftDown]
     have h2' : 2 * i + 2 < (mapKey f a).size := by simpa using h2
-    simp only [h2', ↓reduceDIte, getElem_mapKey, hf, hlr, hlt, ↓reduceIte]
+    simp only [h2', ↓reduceDIte, getElem_mapKey, hf, hlr, hlt]
     simp
   | case5 a i h2 h3 hlt =>
     rw [siftDown]
@@ -226,7 +226,7 @@ theorem siftDown_map (lt : κ → κ → Bool) (lt' : κ' → κ' → Bool) (f :
     rw [siftDown]
     have h2' : ¬ 2 * i + 2 < (mapKey f a).size := by simpa using h2
     have h3' : 2 * i + 1 < (mapKey f a).size := by simpa using h3
-    simp only [h2', h3', ↓reduceDIte, getElem_mapKey, hf, hlt, ↓reduceIte]
+    simp only [h2', h3', ↓reduceDIte, getElem_mapKey, hf, hlt]
     simp
   | case7 a i h2 h3 =>
     rw [siftDown]
@@ -263,7 +263,7 @@ theorem drain_map (lt : κ → κ → Bool) (lt' : κ' → κ' → Bool) (f : κ
       simp only [h0, h0', ↓reduceDIte, List.map_cons, getElem_mapKey]
       rw [removePos_map lt lt' f hf, ih]
     · have h0' : ¬ 0 < (mapKey f a).size := by simpa using h0
-      simp [h0, h0']
+      simp [h0]
 
 theorem edgeOk_map (lt : κ → κ → Bool) (lt' : κ' → κ' → Bool) (f : κ → κ') (hf : ∀ x y, lt' (f x) (f y) = lt x y)
     (a : Array (Elem κ)) (c : Nat) : edgeOk lt' (mapKey f a) c = edgeOk lt a c := by
